@@ -154,8 +154,8 @@ def action (s : State) (toks : List String) : Option State :=
     let s := { s with unk := s.unk + 1 }
     some (settled (env s (.feed { seq := 2^40 + s.unk, src := 0, kind := .ok })))
   | ["junk", _] => some (settled (env s (.feed { seq := 0, src := 0, kind := .ok, junk := true })))
-  | ["eof"] => some (settled (env s (.rerr .shutdown)))
-  | ["rerr"] => some (settled (env s (.rerr .rfail)))
+  | ["eof"] => some (settled (env s (.rerr true)))
+  | ["rerr"] => some (settled (env s (.rerr false)))
   | ["close"] => some (settled (env s .close))
   | ["cancel", k] => k.toNat?.map fun k => settled (env s (.cancel k))
   | ["probe"] => some s
